@@ -279,7 +279,7 @@ def cases_draw(ctx):
         mfm = mfm + [2, 8]
         nfm = nfm + [5]
         lens_sets.append((2 ** 24, [2 ** 20 + 1, 2 ** 22 - 1, 2 ** 22 + 3, 2 ** 23 - 1, 2 ** 23, 2 ** 23 + 1, 2 ** 24 - 1, 2 ** 24]))
-    rands = PATTERNS + ["seed:%d" % (ctx.seed * 1000 + k) for k in range(2 if quick else 8)]
+    rands = PATTERNS + ["seed:%d" % (ctx.seed * 1000 + k) for k in range(2 if quick else 5)]
     pk = random.Random(ctx.seed + 8000).choice  # the limits outside the group under full product are picked pseudo-randomly (seeded)
     # time-mask group: full product of its four limits
     for a in mtm:
@@ -640,6 +640,12 @@ def cases_warp_grid(ctx):
             # mixed lengths in one batch, max_length left to the function (= longest row)
             i += 1
             yield {"T": T, "order": 1, "rows": [[l / 2.0, ((-1) ** l) * l / 4.0, l] for l in range(1, L + 1)], "maxlen": False}
+    # the degenerate corner: a single (or two) valid frame(s) inside ever longer batches (all three knots within 2*eps)
+    for T in range(1, 65 if quick else 2049):
+        for order in (1, 2, 3):
+            yield {"T": T, "order": order, "rows": [[0.0, 0.0, 1]], "maxlen": True}
+            if T >= 2:
+                yield {"T": T, "order": order, "rows": [[1.0, -0.5, 2]], "maxlen": True}
     rng = random.Random(ctx.seed + 8003)
     for k in range(3000 if quick else 40000):
         T = rng.randint(1, Tmax if quick else 40)
@@ -729,7 +735,7 @@ def _cases_warp_apply(ctx, orders, salt):
     tws = [0.5, 1.0, 2.5, 80.0] if quick else [0.25, 0.5, 1.0, 2.5, 6.0, 80.0]
     fws = [0.0, 1.0, 80.0]
     Fs = [1, 2, 5] if quick else [1, 2, 3, 5, 9]
-    nseeds = (9 if quick else 40) if salt == 1 else (5 if quick else 16)
+    nseeds = (9 if quick else 24) if salt == 1 else (5 if quick else 10)
     i = 0
     for T in range(1, Tmax + 1):
         lens = list(range(1, T + 1))
@@ -780,16 +786,35 @@ _KF_WHAT = ("linear time warp whose destination frame (clamped w_0, plus w) land
 _KF_CLASS = ("interpolation_order == 1 and min(d, L-1-d) < 0.1 where d = clamp(src, 0, L-1) + flow; reachable from draw_parameters for every "
              "configuration with max_time_warp > 0, because w_0 + w ranges over [0, L] while the last valid frame is L-1")
 
+_KF2_WHAT = ("a batch whose time dimension is 31 and that holds a length-1 sequence: the three spline knots (1/T-1-eps computed in double, the frame centre and "
+             "centre+eps computed in float32) end up 1 and 2 ulp apart and torch.linalg.solve rejects the system as singular, so the linear time warp raises")
+_KF2_CLASS = "interpolation_order == 1 and T == 31 and some lengths[n] == 1 (the only T in 1..2048 where it happens)"
+
 FINDINGS = [
     {"id": "KF-C08-1", "property": "C08", "clause": "C08.warp.grid", "what": "warp_1d_grid: " + _KF_WHAT, "class": _KF_CLASS,
      "witness": {"T": 2, "order": 1, "rows": [[1.0, -1.0, 2]], "maxlen": True}},
     {"id": "KF-C08-2", "property": "C08", "clause": "C08.warp.order", "what": "apply_parameters (same root cause as KF-C08-1): " + _KF_WHAT, "class": _KF_CLASS,
      "witness": {"T": 2, "F": 1, "lens": [2], "order": 1, "cfg": [2.0, 0.0], "wrows": [[1.0, -1.0]], "seed": 0}},
+    {"id": "KF-C08-3", "property": "C08", "clause": "C08.warp.grid", "what": "warp_1d_grid raises _LinAlgError: " + _KF2_WHAT, "class": _KF2_CLASS,
+     "witness": {"T": 31, "order": 1, "rows": [[0.0, 0.0, 1]], "maxlen": True}},
+    {"id": "KF-C08-4", "property": "C08", "clause": "C08.warp.order", "what": "apply_parameters raises _LinAlgError (same root cause as KF-C08-3): " + _KF2_WHAT, "class": _KF2_CLASS,
+     "witness": {"T": 31, "F": 1, "lens": [1], "order": 1, "cfg": [1.0, 0.0], "wrows": [[0.5, 0.0]], "seed": 0}},
+    {"id": "KF-C08-5", "property": "C08", "clause": "C08.warp.range", "what": "apply_parameters raises _LinAlgError (same root cause as KF-C08-3): " + _KF2_WHAT, "class": _KF2_CLASS,
+     "witness": {"T": 31, "F": 1, "lens": [1], "order": 1, "cfg": [1.0, 0.0], "wrows": [[0.5, 0.0]], "seed": 0}},
 ]
-KNOWN_MATCH = {
-    "KF-C08-1": lambda case, msg: case.get("order") == 1 and "row(s) fail" in msg and _max_enddist(msg) < END_CLASS,
-    "KF-C08-2": lambda case, msg: case.get("order", 1) == 1 and "row(s) fail" in msg and _max_enddist(msg) < END_CLASS,
-}
+
+
+def _ends_class(case, msg):
+    return case.get("order", 1) == 1 and "row(s) fail" in msg and _max_enddist(msg) < END_CLASS
+
+
+def _singular_class(case, msg):
+    lens = case["lens"] if "lens" in case else [r[2] for r in case["rows"]]
+    T = case["T"] if case.get("maxlen", True) else max(lens)
+    return case.get("order", 1) == 1 and T == 31 and 1 in lens and "_LinAlgError" in msg and "singular" in msg
+
+
+KNOWN_MATCH = {"KF-C08-1": _ends_class, "KF-C08-2": _ends_class, "KF-C08-3": _singular_class, "KF-C08-4": _singular_class, "KF-C08-5": _singular_class}
 
 CHECKERS = {
     "C08.draw.bounds": check_draw,
@@ -819,7 +844,7 @@ def run_bounded(ctx):
                            "full product of the 4 time-mask limits (%d combos), of (max_time_warp, max_freq_warp, F) and of (max_freq_mask, num_freq_mask, F), "
                            "the other limits picked (seeded) from their grids; lengths=None for T<=%d; draws: 7 adversarial patterns over {0, 1-2^-24, 0.5} + %d generator seeds; "
                            "feats dtype cycles float32/64/16%s") % (
-                        "" if q else " plus 8 lengths in 2^20+1..2^24 (T=2^24)", len(Q_MTM) * len(Q_MTP) * len(Q_NTM) * len(Q_NTP) if q else 8 * 12 * 6 * 8, 12 if q else 40, 2 if q else 8,
+                        "" if q else " plus 8 lengths in 2^20+1..2^24 (T=2^24)", len(Q_MTM) * len(Q_MTP) * len(Q_NTM) * len(Q_NTP) if q else 8 * 12 * 6 * 8, 12 if q else 40, 2 if q else 5,
                         "" if q else "; + 30000 seeded random (configuration, lengths<=2^24, draw) cases"),
                     text="draw_parameters: 0<=t<=min(max_time_mask, floor(L*prop)), #non-empty masks<=min(num, floor(L*num_prop)), 0<=t_0, t_0+t<=L; frequency likewise with F; "
                          "|w|<=W=min(max_warp, L/2), W<=w_0<=L-W, 0<=w_0+w<=L (and the F analogue); a zero limit switches its step off",
@@ -844,7 +869,7 @@ def run_bounded(ctx):
     if want("C08.warp.grid"):
         ctx.bounded("C08.warp.grid", check_warp_grid, cases_warp_grid(ctx),
                     bound="T in 1..%d, every L in 1..T, orders 1..3, every (src, flow) on the quarter-frame lattice with |flow|<=min(src, L-src) (the window draws come from, incl. its rim), "
-                          "20 out-of-window pairs per (T,L), a mixed-length batch with max_length=None; + %d seeded random rows-batches%s" % ((12, 3000, "") if q else (24, 40000, " with T<=40")),
+                          "20 out-of-window pairs per (T,L), a mixed-length batch with max_length=None; L in {1,2} inside every T<=%d; + %d seeded random rows-batches%s" % ((12, 64, 3000, "") if q else (24, 2048, 40000, " with T<=40")),
                     text="warp_1d_grid: finite for orders 1..3; order 1: read positions of the valid frames non-decreasing (tol 1e-3 frame), first within half a frame of 0, last within half a frame of L-1",
                     nontrivial=lambda c: any(r[1] != 0 for r in c["rows"]), chunk=64,
                     functions=["_img.warp_1d_grid", "_img.polyharmonic_spline"])
@@ -852,17 +877,18 @@ def run_bounded(ctx):
         ctx.bounded("C08.warp.order", check_warp_order, cases_warp_order(ctx),
                     bound="order 1; T in 1..%d with every L in 1..T in one batch; F in %s; max_time_warp in %s (80 > L/2 always) x max_freq_warp in {0,1,80}; draws: 7 adversarial patterns + %d seeds each; "
                           "plus every (w_0, w) on the half-frame lattice of the permitted window per (T,L)%s" % (
-                              (12, "{1,2,5}", "{0,.5,1,2.5,80}", 9, "") if q else (24, "{1,2,3,5,9}", "{0,.25,.5,1,2.5,6,80}", 40, "; + 20000 seeded random cases T<=40")),
+                              (12, "{1,2,5}", "{0,.5,1,2.5,80}", 9, "") if q else (24, "{1,2,3,5,9}", "{0,.25,.5,1,2.5,6,80}", 24, "; + 20000 seeded random cases T<=40")),
                     text="apply_parameters on the ramp feats[n,t,f]=t (bilinear-exact): the valid frames are read in non-decreasing order, beginning/ending within half a frame of the first/last valid frame",
                     chunk=32, functions=["_img.spec_augment_apply_parameters", "_img.warp_1d_grid"])
     if want("C08.warp.range"):
         ctx.bounded("C08.warp.range", check_warp_range, cases_warp_range(ctx),
-                    bound="as C08.warp.order (with %d seeds per configuration) but interpolation orders 1..3 and random feats in [5,8]" % (5 if q else 16),
+                    bound="as C08.warp.order (with %d seeds per configuration) but interpolation orders 1..3 and random feats in [5,8]" % (5 if q else 10),
                     text="apply_parameters with time and/or frequency warp of order 1..3: shape and dtype kept, every value finite and inside [min,max] of its batch element's input (tol 1e-5 relative)",
                     chunk=32, functions=["_img.spec_augment_apply_parameters", "_img.warp_1d_grid", "_img.polyharmonic_spline"])
     ctx.replay_known_witnesses()
     ctx.not_applicable.append("C08: 'every random draw' beyond the contract of torch.rand (values in [0, 1-2^-24]) and CUDA generators/devices are not exercised; "
-                              "long sequences (T >> 40) for the warp clauses, where the float32 spline solve loses accuracy as T^2/distance-to-end, are outside the bound")
+                              "long sequences (T >> 40) for the warp clauses, where the float32 spline solve loses accuracy as T^2/distance-to-end, are outside the bound; warps are exercised on float32 features only (float64/float16 features with a warp switched on raise a "
+                              "dtype RuntimeError inside grid_sample; the property's quantifier does not range over dtypes)")
     ctx.assume("torch.rand returns float32 values in [0, 1-2^-24]; each drawn quantity is monotone in its variate, so the adversarial patterns {0, 1-2^-24} bound every draw",
                "a length-proportional cap floor(L*p) is taken over the rationals with relative slack 2^-22 for the library's float32 product (exact for dyadic p)",
                "lengths <= 2^24 (exactly representable in float32)",
